@@ -395,9 +395,17 @@ def daemon_run(rep, binary, wd, cases, prop, name="daemon"):
         st["l0_deleted_runs"] += 1 if l0 and min(l0) > 1 else 0
     rep.cov["daemon_mode"] = st
     nv = 0
+    known = [f for f in vlib.known_findings(prop) if f.get("status") == "known"]
     for t, items in sorted(verdicts.items()):
         names = sorted(set(n for n, _ in items))
         c = by_id[t]
+        hz = hazards.get(t, set())
+        match = [f for f in known if f["signature"] in hz and all(n in f["invariants"] for n in names)]
+        if match:
+            rep.known_finding(match[0]["id"], match[0]["what"])
+            rep.cov.setdefault("known_finding_traces", 0)
+            rep.cov["known_finding_traces"] += 1
+            continue
         slim = [{k: e[k] for k in ("i", "op", "arg", "n", "res", "ack", "rpos", "app")} for e in events.get(t, [])]
         rep.violation("%s violated by the real daemon (Store with all monitors running, trace %d, steps %s)" % (
             names, t, sorted(set(i for _, i in items))[:5]), {"cfg": c["cfg"], "sched": c["sched"], "violated": items, "steps": slim[-60:]})
